@@ -380,7 +380,8 @@ Record hobs := mkH {
   h_can_count : bool;     (* ... in Recv::recv_headers for an initial header section (true if already counted) *)
   h_verdict : hverdict;
   h_quota : bool;         (* counts.can_inc_num_local_error_resets() *)
-  h_can_reset : bool      (* counts.can_inc_num_reset_streams() *)
+  h_can_reset : bool;     (* counts.can_inc_num_reset_streams() *)
+  h_no_method : bool      (* frame.pseudo().method.is_none(): a header block without a request line *)
 }.
 
 Inductive dverdict :=
@@ -537,7 +538,9 @@ Definition step_recv_headers (st : conn) (sid : N) (eos info : bool) (o : hobs) 
     match iget st sid with
     | Some (k, r) => recv_headers_on st sid eos info o k r false
     | None =>
-      if negb (is_server (c_role st)) && may_have_forgotten st sid
+      (* client: any HEADERS on an identifier already used; server (repair e4f0dfd): a header block without a request
+         line - a trailer section - on an identifier the peer has already used *)
+      if (negb (is_server (c_role st)) || h_no_method o) && may_have_forgotten st sid
       then res1 st [ORxRefused sid] (RErr (lib_reset sid STREAM_CLOSED))
       else match recv_open_id st sid false (h_can_open o) with
            | OpStuck => Stuck 2
@@ -1360,17 +1363,6 @@ Definition wf_shape (ro : role) (sid : N) (r : srec) : bool :=
            | _ => false
            end)
    else true).
-
-(* 8.4 / 5.1.1: a PUSH_PROMISE is legal from a server to a client that has not disabled push, and promises a fresh
-   even identifier above all earlier ones *)
-Definition conn_fine (st : conn) (l : label) : bool :=
-  match l with
-  | LRecvPushPromise _ p _ _ =>
-    negb (is_server (c_role st)) && c_push_local st && is_server_init p &&
-    match c_recv_next st with Some n => n <=? p | None => false end
-  | _ => true
-  end.
-
 
 (* next_stream_id has this endpoint's parity *)
 Definition ids_wf (st : conn) : bool :=
